@@ -7,15 +7,16 @@ hash-tag / range-cover reference evaluated on what the implementation answered a
 import vlib, re
 
 MANIFEST = {
-  'text': 'Theorems C09_hash_tag_spec / C09_hash_tag_no_panic (declarative characterisation of the tag, the expect() is unreachable), '
-          'C09_slot_range, C09_slot_def, C09_crc16_range, C09_table (the 16384-entry table built by SlotMapData::new answers, for every slot and every '
-          'iteration order, the last entry whose ranges cover it; proved over ranges, not by enumeration), C09_table_wf (for pairwise disjoint nodes the '
-          'owner is order-independent and equals the declarative covers relation), C09_decision (Local n iff the slot is in a range of local node n; '
-          'Moved/Forward name a peer whose ranges contain the slot and only when no local node covers it; NotCovered iff nobody covers it), '
-          'C09_unreachable (the dropped-request and node-missing branches never fire), C09_multi_key (refusal iff active redirection is off or the command is EVAL '
-          'and the checked keys hash to different slots or there is none; a refused command sends nothing; every sub command is a one-key command routed by that key) '
-          'about Model/Slot.v, which mirrors utils.rs get_hash_tag/generate_slot/same_slot, slot.rs, the send path of cluster.rs/manager.rs, command.rs get_key and the '
-          'multi-key handlers of executor.rs. The model is tied to the code by running the same case lines through the real functions and a real in-process proxy.',
+  'text': 'Theorems about Model/Slot.v: C09_hash_tag_spec + C09_hash_tag_no_panic (the tag is the content between the first "{" and the first "}" after it when non-empty, else the whole key; '
+          'the expect() is unreachable), C09_slot_range, C09_slot_def, C09_crc16_range, C09_table / C09_table_dump (for every slot number and every iteration order the 16384-entry table built by '
+          'SlotMapData::new answers the last entry whose ranges cover the slot - start > end skipped, nothing at or beyond 16384; proved over ranges, not by enumeration), C09_table_wf / C09_table_order '
+          '(for pairwise disjoint nodes the lookup is the declarative covers relation and independent of HashMap order), C09_table_overlap (otherwise a member of the owner set), C09_decision '
+          '(Local n only if, and for disjoint local nodes iff, slot in a range of local node n; MOVED / forward name the slot and a peer whose ranges contain it and only when no local node covers it; '
+          'the error iff nobody covers it; the dropped-request, missing-key and no-cluster outcomes are unreachable for a named cluster and a keyed command), C09_no_cluster, C09_multi_refused + C09_same_slot '
+          '(MGET/MSET/MSETNX/multi-DEL/multi-EXISTS with active redirection off, and multi-key EVAL always, are refused and send nothing when the guarded keys are none or hash to two slots), '
+          'C09_multi_key (everything a data command causes to be sent is the command itself routed by its own key or a sub command whose keys are keys of the command, all in one slot, routed by that slot), '
+          'C09_eval_keys. The model mirrors utils.rs get_hash_tag/generate_slot/same_slot, slot.rs, the send path of cluster.rs/manager.rs, command.rs get_key and the multi-key handlers of executor.rs, '
+          'and is tied to the code by running the same case lines through the real functions and a real in-process proxy.',
   'note': 'Coq kernel; closed under the global context; extraction (ExtrOcamlBasic, List functions inlined) + OCaml driver; CRC16/XMODEM is defined bitwise in the model and the crc16 crate '
           'is compared against it and against an independent Python table implementation. Hook: cfg-guarded re-export proxy::verif_slot of the private slot module. '
           'Not modelled: blocking commands (BLPOP family), running migration tasks (route is the path taken when no migration task contains the slot), compression, passwords, '
